@@ -123,12 +123,29 @@ def build_driver():
     return True, ""
 
 
+REPO = os.environ.get("VERIF_REPO", "/repo")
+
+
+def harness_dir():
+    """The harness module replaces go.uber.org/zap by /repo.  For development against a scratch
+    worktree (VERIF_REPO=/tmp/...), a copy of the module with rewritten replace directives is used;
+    registered commands never set VERIF_REPO."""
+    src = os.path.join(ROOT, "harness")
+    if REPO == "/repo":
+        return src
+    dst = os.path.join(WORK, "harness-alt")
+    if os.path.exists(dst):
+        shutil.rmtree(dst)
+    shutil.copytree(src, dst)
+    gm = open(os.path.join(dst, "go.mod")).read().replace("=> /repo/exp", "=> %s/exp" % REPO).replace("=> /repo\n", "=> %s\n" % REPO)
+    open(os.path.join(dst, "go.mod"), "w").write(gm)
+    return dst
+
+
 def build_gen_and_harness(tags="verif", race=False, name="zapdrive"):
-    """The harness is built against /repo's current working tree on every run."""
-    for f in ("go.sum",):
-        pass
+    """The harness is built against the repository's current working tree on every run."""
     cmd = "go build -tags %s %s -o %s ." % (tags, "-race" if race else "", os.path.join(WORK, name))
-    rc, out = sh(cmd, cwd=os.path.join(ROOT, "harness"), env=GOENV, timeout=1200)
+    rc, out = sh(cmd, cwd=harness_dir(), env=GOENV, timeout=1200)
     return rc == 0, out
 
 
@@ -138,7 +155,7 @@ def run_gen(prop):
     if not gens:
         return True, ""
     os.makedirs(os.path.join(COQ, "theories", "Gen"), exist_ok=True)
-    rc, out = sh("go run . -repo /repo -out %s %s" % (os.path.join(COQ, "theories", "Gen"), " ".join(gens)),
+    rc, out = sh("go run . -repo " + REPO + " -out %s %s" % (os.path.join(COQ, "theories", "Gen"), " ".join(gens)),
                  cwd=os.path.join(ROOT, "gen"), env=GOENV, timeout=600)
     return rc == 0, out
 
